@@ -21,7 +21,7 @@ PROPS = {
         modelled="method/parse.go Parse (Sig.v: role loop, arity/result validation, error order); the ParseOpts literal of each "
                  "call site (converter method, extend, map|FUNC, default, struct method) is regenerated from the source (Extracted.v)",
         assumptions=["a parameter is abstracted to the three tests Parse applies (types.Identical with the converter, name = update ARG, context match)",
-                     "variadic parameters are invisible to method.Parse (F-C14-1/-2: accepted but mis-generated; end-to-end replay pending)",
+                     "variadic signatures are a boolean input (sig.Variadic()); since fix 62e5489 they are rejected (F-C14-1/-2)",
                      "accessibility (xtype.Accessible) and isError are taken as boolean inputs"],
     ),
     "C02": dict(
